@@ -174,6 +174,40 @@ pub fn template_call_shape(line: &str) -> bool {
     false
 }
 
+/// byte positions (`<`, `>`) of every `name < ... > (` shape of a line
+pub fn template_call_spans(line: &str) -> Vec<(usize, usize)> {
+    let b = line.as_bytes();
+    let mut out = Vec::new();
+    for i in 0..b.len() {
+        if b[i] == b'<' && i >= 2 && b[i - 1] == b' ' && b.get(i + 1) == Some(&b' ') {
+            let prev = b[i - 2];
+            if !(prev.is_ascii_alphanumeric() || prev == b'_' || prev == b')' || prev == b']') {
+                continue;
+            }
+            let mut depth = 0i32;
+            let mut j = i + 1;
+            while j + 2 < b.len() {
+                match b[j] {
+                    b'(' | b'[' => depth += 1,
+                    b')' | b']' => {
+                        depth -= 1;
+                        if depth < 0 {
+                            break;
+                        }
+                    }
+                    b';' => break,
+                    b'>' if depth == 0 && b[j - 1] == b' ' && b[j + 1] == b' ' && b[j + 2] == b'(' => {
+                        out.push((i, j));
+                    }
+                    _ => {}
+                }
+                j += 1;
+            }
+        }
+    }
+    out
+}
+
 fn fixpoint(g1: &rssl::CompiledPipeline, label: &str, nontrivial: bool, key: u64) -> Verdict {
     let t1 = pipeline_text(g1);
     let r2 = match compile_text(&t1, Tgt::Dx) {
@@ -190,6 +224,14 @@ fn fixpoint(g1: &rssl::CompiledPipeline, label: &str, nontrivial: bool, key: u64
             let unlocated_shape = msg.contains("could not be evaluated as a constant expression") && !e.contains("main.rssl:") && t1.lines().any(template_call_shape);
             if unlocated_shape || template_call_shape(line) && (msg.contains("non-function") || msg.contains("constant expression") || msg.contains("failed to parse") || msg.contains("not declared") || msg.contains("aggregate initializer has incorrect number of elements")) {
                 return Verdict::fail("emitted-text-rejected:template-call-ambiguity", format!("{}\n--- emitted text\n{}", e, t1));
+            }
+            // whatever the message: a diagnostic that points between the `<` and the `> (` of such a shape comes from reading
+            // the text in between as template arguments
+            let column = first.split(':').nth(2).and_then(|c| c.trim().parse::<usize>().ok());
+            if let Some(col) = column {
+                if template_call_spans(line).iter().any(|(lt, gt)| *lt < col - 1 && col - 1 <= *gt) {
+                    return Verdict::fail("emitted-text-rejected:template-call-ambiguity", format!("{}\n(the diagnostic points into the text between `<` and `> (`)\n--- emitted text\n{}", e, t1));
+                }
             }
             return Verdict::fail(format!("emitted-text-rejected:{}", normalise_panic(msg)), format!("{}\n--- emitted text\n{}", e, t1));
         }
